@@ -10,6 +10,14 @@ A_NOTE = ("Trusted: std::sync::mpsc and the 30-line native transport (the simula
           "hash-iteration order pinned by the hooks; scenario templates over a stated grid.")
 
 CHECKS = {
+    "C14": dict(engine="sim", category="model_checking", design="4, 7/C14",
+                technique="stateless model checking of the real runtime over an instrumented effect backend with scheduler-controlled completion; host-side ownership model on the consumed event stream",
+                text="Resource scenarios over the real file builtins and the real ownership logic under every schedule within the deviation bound, effects immediate or deferred: backend calls vs the calls the ownership rules allow after every environment step, runtime closes only for terminated owners and at most once, at quiescence every resource of a terminated owner is closed (one known finding: never-awaited owners).",
+                note=A_NOTE + " io_uring/native registry replaced by an in-memory backend."),
+    "C15": dict(engine="sim", category="model_checking", design="4, 7/C15",
+                technique="stateless model checking of the real runtime with failure-placement scenarios and per-process result expectations",
+                text="A failing operation in each process role under every schedule within the deviation bound: awaiters have exactly the failed process's error, non-awaiters their normal results, no panic/Err from Worker::step or Environment::step, no hang, no lost completion.",
+                note=A_NOTE),
     "C05": dict(engine="sim", category="model_checking", design="4, 7/C05",
                 technique="stateless model checking of the real runtime with a select-conformance monitor (hooked entry/exit snapshots judged by a host reference of the documented select semantics)",
                 text="select_mix/fanout_race/late_await/typed_mail scenarios under every schedule within the deviation bound including virtual-clock advances; every handle_select entry is judged: winning source = first ready in written order, message = earliest of its type accepted by its filter, value = the message (never the verdict) / nil / awaited result, mailbox afterwards = before minus that message in order, a parked select had nothing ready, timeouts not early; plus completion conservation and program-level accounting of selected + drained + remaining messages.",
